@@ -6,6 +6,8 @@ visible value of that tag (read directly from the tag objects) last changed.
 """
 from __future__ import annotations
 
+import gc
+
 from mc import c16_common as cc
 from mc.core import HarnessError
 from mc.engine_harness import DT, T0
@@ -35,7 +37,9 @@ def check_program(lines):
 
 def run(ctx):
     items = cc.corpus(ctx.quick)
-    ctx.prove_deterministic(lambda it: check_program(it), [items[0], items[40], items[-1]])
+    ctx.prove_deterministic(check_program, [items[0], items[40], items[-1]])
+    gc.collect()
+    gc.freeze()              # keep the forked workers from copying the inherited heap on their first collection
     results = ctx.pmap(check_program, items)
     data = changed = nontrivial = tick_exc = 0
     for lines, (viol, stats, nt, te) in zip(items, results):
@@ -53,8 +57,8 @@ def run(ctx):
         evaluations=data, reported_data_whose_value_changed_in_that_tick=changed, distinct_nontrivial=nontrivial,
         programs=n, horizon=cc.HORIZON, ticks_that_raised=tick_exc,
         kinds_full=cc.KINDS_FULL, kinds_sub=cc.KINDS_SUB if ctx.quick else cc.KINDS_SUB4,
-        bounds="<=2 statements over kinds_full + 3 over kinds_sub, nesting <=2" if ctx.quick else
-               "<=3 statements over kinds_full + 4 over kinds_sub, nesting <=2",
+        bounds="<=2 statements over kinds_full + 3 over kinds_sub, nesting <=2, no empty bodies" if ctx.quick else
+               "<=3 statements over kinds_full + 4 over kinds_sub, nesting <=2, no empty bodies",
         rule="every program of the bounded grammar is executed once; states = ticks observed (a report and a snapshot are "
              "checked after each); evaluations = reported (tag, tick_time) data checked; non-trivial = executions in which a "
              "non-clock tag changed its visible value after the first tick because of the program (input-driven changes of "
